@@ -15,7 +15,7 @@ Docs == {"link", "layout"}
 MCInit ==
   /\ ctor \in {"new", "build"}
   /\ signers \in {<<"k1">>, <<"k1", "k2">>, <<"k1", "k2", "k3">>}
-  /\ fmt \in {"compact", "pretty"}
+  /\ fmt \in {"compact", "pretty", "cjson", "cjson_pretty"}   \* serde_json compact / pretty, Json / JsonPretty interchange
   /\ str \in StrsFor
   /\ field \in Docs
   /\ LInitRest
